@@ -32,6 +32,12 @@
 //! beyond f64::MAX -> the infinity of the right sign; below the normal range -> right sign and
 //! within `tol` subnormal spacings; zero -> the zero of the product sign.
 //!
+//! Set length: "for every tuple" includes the length of the operand set. `large-sets` applies a
+//! sample of configurations of all three operators (adapt pairs that permute + sign-flip + convert,
+//! axisswap orders, unit pairs; plain and `inv`, both directions) in ONE apply call to sets of 0, 1,
+//! 2, 255..257, 511..513, 1023..1025, 4095, 4097 and 20011 tuples whose values are a function of the
+//! tuple index (all distinct), every tuple against the same per-tuple reference, count == length.
+//!
 //! A mismatch of an adapt result is additionally classified by replaying the library's
 //! bookkeeping with up to three index slips switched on (see `lib_model`): the failure key
 //! names exactly the set of slips that reproduces the library output, so that a different
@@ -2135,6 +2141,68 @@ fn check_conv_cont(cc: &ConvContCase, rec: &mut Rec) -> CaseResult {
 
 // ---------------------------------------------------------------------------------------
 
+// ---------------------------------------------------------------------------------------
+// large operand sets: "for every tuple" includes the LENGTH of the set
+// ---------------------------------------------------------------------------------------
+
+/// Lengths around every power-of-two block boundary an implementation might use, plus one long set.
+const LARGE_LENS: [usize; 15] = [0, 1, 2, 255, 256, 257, 511, 512, 513, 1023, 1024, 1025, 4095, 4097, 20_011];
+
+/// One operator configuration (probe list empty) applied to a set of `len` tuples whose values
+/// are a function of (salt, tuple index): all distinct, so a tuple computed from another index,
+/// computed twice, or left untouched cannot look right.
+#[derive(Clone, Debug, Serialize, Deserialize)]
+struct LargeCase {
+    len: usize,
+    salt: u64,
+    pair: Option<PairCase>,
+    swap: Option<SwapCase>,
+    conv: Option<ConvCase>,
+}
+
+/// Tuple #i of the long set: same magnitude bands as `probes` (no quotient of two elements near a
+/// factor the operators apply), 52 hashed mantissa bits and a hashed sign per element.
+fn indexed_tuples(salt: u64, len: usize) -> Vec<P4> {
+    (0..len as u64)
+        .map(|i| {
+            let s = |j: u64| if frac(salt, 8 * i + 4 + j) < 0.5 { -1.0 } else { 1.0 };
+            p4(
+                s(0) * (1.0 + frac(salt, 8 * i)),
+                s(1) * (20.0 + 10.0 * frac(salt, 8 * i + 1)),
+                s(2) * (300.0 + 100.0 * frac(salt, 8 * i + 2)),
+                s(3) * (5000.0 + 1000.0 * frac(salt, 8 * i + 3)),
+            )
+        })
+        .collect()
+}
+
+fn check_large(c: &LargeCase, rec: &mut Rec) -> CaseResult {
+    let pts = indexed_tuples(c.salt, c.len);
+    // the per-tuple oracles of the small sections: every tuple against the reference, count == length
+    let (r, op) = if let Some(p) = &c.pair {
+        (check_pair(&PairCase { probes: pts, ..p.clone() }, rec), "adapt")
+    } else if let Some(s) = &c.swap {
+        (check_swap(&SwapCase { probes: pts, ..s.clone() }, rec), "axisswap")
+    } else if let Some(u) = &c.conv {
+        (check_conv(&ConvCase { probes: pts, ..u.clone() }, rec), "unitconvert")
+    } else {
+        vfail!("harness-bad-case", "empty large-set case")
+    };
+    if let Err(mut f) = r {
+        f.msg = format!("[operand set of {} tuples, values = f(salt {:#x}, index)] {}", c.len, c.salt, f.msg);
+        return Err(f);
+    }
+    rec.class(&format!("{op}-len-{}", c.len));
+    rec.class(match c.len {
+        0 => "set-empty",
+        1..=255 => "set-short",
+        256..=1025 => "set-hundreds",
+        _ => "set-thousands",
+    });
+    rec.count("tuples_compared", c.len as u64);
+    Ok(())
+}
+
 fn selftest() {
     // container reference: the seed of the documentation (set.rs): a Coor2D reads (x, y, 0, NaN)
     {
@@ -2657,5 +2725,70 @@ fn main() {
         );
     }
 
-    run.finish("finite domains enumerated completely: adapt 1920x1920 descriptor pairs x directions (x definition variants), 4096 words x 21 suffix forms, eight macros; axisswap all 177155 index lists over -5..5 up to length 5; unitconvert all 24^4 unit combinations and every unit table entry; each compared with a table-driven reference written from the documentation (reordering/sign bit-identical, scaling within 6 ulp (adapt) / 8 ulp (unitconvert) of the exact ratio); the scaling over the whole finite f64 magnitude range (subnormals, smallest normals ... f64::MAX, every element position, both signs) for every unit pair (as xy and as z pair, both directions, with and without inv) and every adapt spelling (as from and as to, both directions): normal exact result -> within the ulp tolerance and finite, exact overflow -> infinity of the right sign, exact subnormal -> right sign and a few subnormal spacings; the same reference on the documented 4-D view of all 36 container kinds (Vec/array/slice of Coor4D/3D/2D/32, plain and in the (set,h,t)/(set,t) adapters): axisswap all 442 orders x flag x direction, adapt every spelling as from and as to in both directions, unitconvert every xy and every z unit pair in both directions, per kind");
+    // ---- long operand sets: every tuple of a set of any length ------------------------------------
+    {
+        // adapt: 16 descriptor pairs drawn from all 1920 x 1920 by hash; the first 10 re-drawn until the
+        // documented mapping moves, sign-flips and angle-converts (perm+sign+unit), the rest as drawn;
+        // definition variant x direction cover all 8 combinations twice
+        let mut cfg: Vec<LargeCase> = vec![];
+        let blank = |salt: u64| LargeCase { len: 0, salt, pair: None, swap: None, conv: None };
+        for j in 0..16u64 {
+            let mut t = 0u64;
+            let (fi, ti) = loop {
+                let h = splitmix(seed ^ splitmix(0x1A26_E000 + 64 * j + t));
+                let (fi, ti) = ((h % N_SPELL as u64) as usize, ((h >> 24) % N_SPELL as u64) as usize);
+                let m = reference(&parse_desc(&spelling(fi)).unwrap(), &parse_desc(&spelling(ti)).unwrap());
+                let full = (0..4).any(|i| m[i].src != i) && (0..4).any(|i| m[i].neg) && (0..4).any(|i| m[i].num != m[i].den);
+                if (full || j >= 10) && !is_identity(&m) || t >= 60 {
+                    break (fi, ti);
+                }
+                t += 1;
+            };
+            let pair = PairCase { from: spelling(fi), to: spelling(ti), variant: (j % 4) as u8, fwd: (j / 4) % 2 == 0, probes: vec![] };
+            cfg.push(LargeCase { pair: Some(pair), ..blank(0xADA0 + j) });
+        }
+        // axisswap: 8 of the 442 orders by hash (not the identity) x {plain, inv} x {Fwd, Inv}
+        let valid = all_valid_swaps();
+        for j in 0..8u64 {
+            let mut t = 0u64;
+            let order = loop {
+                let o = valid[(splitmix(seed ^ splitmix(0x5A26_E000 + 64 * j + t)) % 442) as usize].clone();
+                if o.iter().enumerate().any(|(i, v)| *v != i as i8 + 1) {
+                    break o;
+                }
+                t += 1;
+            };
+            let swap = SwapCase { order, inv_flag: j % 2 == 1, fwd: (j / 2) % 2 == 0, probes: vec![] };
+            cfg.push(LargeCase { swap: Some(swap), ..blank(0x5A90 + j) });
+        }
+        // unitconvert: 12 unit 4-tuples by hash, xy pair linear (8) or angular (4), z pair linear,
+        // in != out, x {plain, inv} x {Fwd, Inv} x omission of defaults
+        for j in 0..12u64 {
+            let h = splitmix(seed ^ splitmix(0xC026_E000 + j));
+            let two = |h: u64, base: u64, n: u64| {
+                let a = h % n;
+                let b = (a + 1 + (h >> 16) % (n - 1)) % n;
+                (PUBLISHED[(base + a) as usize].name.to_string(), PUBLISHED[(base + b) as usize].name.to_string())
+            };
+            let (xy_in, xy_out) = if j % 3 == 2 { two(h, 21, 3) } else { two(h, 0, 21) };
+            let (z_in, z_out) = two(h >> 32, 0, 21);
+            let conv = ConvCase { xy_in, xy_out, z_in, z_out, omit_defaults: j % 2 == 1, inv_flag: (j / 2) % 2 == 1, fwd: (j / 4) % 2 == 0, probes: vec![] };
+            cfg.push(LargeCase { conv: Some(conv), ..blank(0xC0E0 + j) });
+        }
+        let nc = cfg.len();
+        run.enumerate(
+            "large-sets",
+            &format!("the per-tuple statements over the LENGTH of the operand set: {nc} operator configurations (adapt: 16 from/to pairs drawn from all 1920 x 1920 by hash(seed), 10 of them with a documented mapping that permutes, sign-flips and angle-converts, all 4 definition variants {{from/to, to/from, `inv` with swapped roles, Plain}} x both directions; axisswap: 8 non-identity orders of the 442 x {{plain, inv}} x both directions; unitconvert: 12 unit 4-tuples, linear and angular xy pairs, x {{plain, inv}} x both directions x omitted defaults) x set lengths {LARGE_LENS:?} (Vec<Coor4D>, ONE apply call per set); tuple #i = f(salt, i), all tuples distinct (hashed mantissas and signs in the magnitude bands of the generic probes), so a tuple taken from another index, transformed twice or left untouched is visible; oracle: the per-tuple reference of the small sections for EVERY tuple (pure elements bit for bit, scaled within 6 / 8 ulp of the exact ratio) and returned count == length"),
+            nc * LARGE_LENS.len(),
+            move |i| {
+                let mut c = cfg[i % nc].clone();
+                c.len = LARGE_LENS[i / nc];
+                c.salt = splitmix(seed ^ splitmix(c.salt ^ ((c.len as u64) << 20)));
+                c
+            },
+            check_large,
+        );
+    }
+
+    run.finish("finite domains enumerated completely: adapt 1920x1920 descriptor pairs x directions (x definition variants), 4096 words x 21 suffix forms, eight macros; axisswap all 177155 index lists over -5..5 up to length 5; unitconvert all 24^4 unit combinations and every unit table entry; each compared with a table-driven reference written from the documentation (reordering/sign bit-identical, scaling within 6 ulp (adapt) / 8 ulp (unitconvert) of the exact ratio); the scaling over the whole finite f64 magnitude range (subnormals, smallest normals ... f64::MAX, every element position, both signs) for every unit pair (as xy and as z pair, both directions, with and without inv) and every adapt spelling (as from and as to, both directions): normal exact result -> within the ulp tolerance and finite, exact overflow -> infinity of the right sign, exact subnormal -> right sign and a few subnormal spacings; the same reference on the documented 4-D view of all 36 container kinds (Vec/array/slice of Coor4D/3D/2D/32, plain and in the (set,h,t)/(set,t) adapters): axisswap all 442 orders x flag x direction, adapt every spelling as from and as to in both directions, unitconvert every xy and every z unit pair in both directions, per kind; and over the length of the operand set (0, 1, 2, every length around 256, 512, 1024, 4096, and 20011 tuples with index-dependent distinct values in one apply call: 36 configurations of the three operators, with and without inv, both directions; every tuple against the same reference, count == length)");
 }
